@@ -299,6 +299,12 @@ Definition ex_conditional : rreq :=
 Definition ex_file : bytes := B "0123456789".
 Definition ex_get (v : bytes) : rreq := {| rq_method := GET; rq_ae := 0; rq_ranges := [v]; rq_ims := 0 |}.
 
+(** a ranged GET for the closed interval [r] *)
+Definition range_header (r : N * N) : bytes := B "bytes=" ++ dec (fst r) ++ [c_dash] ++ dec (snd r).
+Definition get_range (ae : N) (r : N * N) : rreq :=
+  {| rq_method := GET; rq_ae := ae; rq_ranges := [range_header r]; rq_ims := 0 |}.
+Definition wbody (w : wreply) : bytes := match w with W416 => [] | WResp w => w_body w end.
+
 (** ---- xval interface ---- *)
 Definition x_wire (w : wire) : xval :=
   XL [XN (w_status w); x_option XB (w_content_range w); XN (w_content_length w);
